@@ -56,12 +56,12 @@ k("canary_must_fail", *SUB, ["C01", "C02", "C08", "C10"], "canary")
 
 TL = ("timeline::verif_timeline", "mina_core", "core/src/verif_timeline.rs")
 OM = ["TimeScale::get_position"]
-for n in range(5):
+for n in (0, 1, 2, 3, 4, 6, 8, 16):
     k("prepare_frame_n%d" % n, *TL, ["C01", "C02", "C08", "C09", "C10"], "contract", function="prepare_frame",
       clause="None iff no keyframes; NotStarted=>(0%%,override on); Ended(p)=>(p,off); Active=>(t, on iff !repeating&&!reversing); index brackets t (hint_ok); get_position replaced by an ARBITRARY result",
       bound="boundary_times.len() == %d (binary search unwound, unwinding assertions on)" % n)
     K[-1]["omit_contracts"] = OM
-for n in range(1, 5):
+for n in (1, 2, 3, 4, 6, 8, 16):
     k("search_index_n%d" % n, *TL, ["C01"], "lemma", function="prepare_frame (index part)", clause="binary search by total_cmp on sorted valid positions (repeats allowed) yields hint_ok",
       bound="boundary_times.len() == %d" % n)
     K[-1]["omit_contracts"] = OM
@@ -79,7 +79,7 @@ k("merged_single_is_transparent", *TL, ["C12"], "contract", function="MergedTime
 K[-1]["omit_contracts"] = OM
 k("merged_disjoint_commutes", *TL, ["C12"], "contract", function="MergedTimeline::update", clause="disjoint property sets => order irrelevant", bound="2 components")
 K[-1]["omit_contracts"] = OM
-for n in range(4):
+for n in (0, 1, 2, 3, 4, 5, 7):
     k("builder_args_n%d" % n, *TL, ["C11", "C03", "C17"], "contract", function="TimelineBuilderArguments::from",
       clause="keyframes sorted by position, boundary_times[i]==keyframes[i].time, same multiset, timing configuration reaches the TimeScale",
       bound="%d keyframes (sort_by executed, unwinding assertions on); positions/timing fully symbolic" % n)
